@@ -329,7 +329,9 @@ def evaluate(ev, env):
 
 
 class Parser:
-    def __init__(self, files, graph, phony_rule, block_values_see_block=False, paths_see_block=True, inherit_version=False):
+    def __init__(self, files, graph, phony_rule, block_values_see_block=False, paths_see_block=True, inherit_version=False,
+                 phonycycle_err=False):
+        self.phonycycle_err = phonycycle_err   # -w phonycycle=err: the legacy self reference is not tolerated (it stays in the graph)
         self.files, self.g, self.phony = files, graph, phony_rule
         self.inherit_version = inherit_version
         self.block_values_see_block = block_values_see_block
@@ -518,7 +520,7 @@ class Parser:
         e.order_only = paths(order_only, "in")
         e.validations = paths(validations, "in")
         # legacy: a phony statement whose single output is also an input (CMake 2.8.12 - 3.0)
-        if rule.name == "phony" and len(e.outs) == 1 and not e.iouts and not e.implicit:
+        if rule.name == "phony" and len(e.outs) == 1 and not e.iouts and not e.implicit and not self.phonycycle_err:
             o = e.outs[0]
             if o in e.ins or o in e.order_only:
                 e.ins = [x for x in e.ins if x != o]
@@ -550,17 +552,17 @@ def parse_version(v):
     return (int(m.group(1) or 0), int(m.group(2) or 0))
 
 
-def parse(files, main="build.ninja", block_values_see_block=False, paths_see_block=True, inherit_version=False):
+def parse(files, main="build.ninja", block_values_see_block=False, paths_see_block=True, inherit_version=False, phonycycle_err=False):
     g = Graph()
     g.nodes = set()
     phony = Rule("phony")
-    p = Parser(files, g, phony, block_values_see_block, paths_see_block, inherit_version)
+    p = Parser(files, g, phony, block_values_see_block, paths_see_block, inherit_version, phonycycle_err)
     top = Env()
     p.load(main, top)
     return g
 
 
-def expectations(files):
+def expectations(files, phonycycle_err=False):
     """All readings the manual permits: list of dumps / '!error:<file>:<line>' / '!fatal'."""
     res = []
     uses_newline_escape = any("$^" in t for t in files.values())
@@ -568,7 +570,7 @@ def expectations(files):
         for ps in (True, False):
           for iv in ((False, True) if uses_newline_escape else (False,)):
             try:
-                g = parse(files, block_values_see_block=bv, paths_see_block=ps, inherit_version=iv)
+                g = parse(files, block_values_see_block=bv, paths_see_block=ps, inherit_version=iv, phonycycle_err=phonycycle_err)
                 r = g.dump()
             except ManifestError as e:
                 r = "!error:%s:%d:" % (e.file, e.line)
